@@ -16,6 +16,7 @@ import YashModel.Pipe.Wake
 import YashModel.Pipe.Chain
 import YashModel.Pipe.Ops
 import YashModel.Pipe.Lossy
+import YashModel.Pipe.HChain
 open YashModel YashModel.Pipe YashModel.Proto
 
 
@@ -131,6 +132,19 @@ def runXfer (ws : List String) : String :=
     (match wtransfer cfg (kvNat ws "seed") (kvNat ws "wk") (kvNat ws "rk") p with
       | some x => s!"recv={x.length}:{hashBytes x} w=closed r=done"
       | none => "stuck") ++ "\t" ++ s!"=recv={want.length}:{hashBytes want} w=closed r=done"
+  else if kvNat ws "mid" != 0 && kvNat ws "hs" != 0 then
+    -- a pipeline whose forwarder number `hs` is head-like: it stops after `hk` bytes (HChain.lean)
+    let p := payload (kvNat ws "n") (kvNat ws "pat") (kvNat ws "per") (kvNat ws "nl")
+    let hk := kvNat ws "hk"
+    let s := hchainTransfer cfg (kvNat ws "seed") (kvNat ws "mid") (kvNat ws "hs") hk (kvNat ws "wk") (kvNat ws "rk") p
+    let want := (specTransfer p).take hk
+    let stx := s.statuses
+    let obs := s!"recv={s.received.length}:{hashBytes s.received} w={stx.headD "?"} f={",".intercalate ((stx.drop 1).dropLast)} r={stx.getLastD "?"}"
+    -- Spec: the first `hk` bytes arrive; the head-like stage and everything after it exit normally; everything
+    -- before it exits normally when the payload fits the allowance, dies of EPIPE when it is far larger
+    let up := if p.length ≤ hk then "closed" else "failed"
+    let fs := (List.range (kvNat ws "mid")).map fun i => if i + 1 < kvNat ws "hs" then up else "closed"
+    obs ++ "\t" ++ s!"=recv={want.length}:{hashBytes want} w={up} f={",".intercalate fs} r=done"
   else if kvNat ws "mid" != 0 then
     -- a concurrent pipeline `writer | mid × forwarder | reader`: every process scheduled on its own (Chain.lean)
     let p := payload (kvNat ws "n") (kvNat ws "pat") (kvNat ws "per") (kvNat ws "nl")
